@@ -132,9 +132,9 @@ def run(ctx):
             setedges.setdefault(p["d"], {}).setdefault((p["r"], p["silent"]), set()).add((e["op"], int(a), (q["r"], q["silent"])))
             if e["op"] == "set_silent" and e["ret"] != a:
                 raise Broken("spec: set_silent returns the new value")
-    macros = sorted({k[3:] for k in allowed})          # (statement, stream history, statement context)
+    macros = sorted({k[3:] for k in allowed})          # (statement, history, statement context, condition type)
     ds = sorted(setedges)
-    if len({m for m, _, _ in macros}) != 28 or len({c for _, _, c in macros}) != 5 or len(ds) != 6:
+    if len({m[0] for m in macros}) != 28 or len({m[2] for m in macros}) != 5 or len({m[3] for m in macros}) != 10 or len(ds) != 6:
         raise Broken("matrix incomplete: %d statement/history/context triples, %d compile-time levels" % (len(macros), len(ds)))
     rnd = random.Random(ctx.seed)
     st = {"executed": 0, "sweep": 0}
@@ -144,15 +144,15 @@ def run(ctx):
     sizes = message_sizes()
 
     def judge(d, cur_r, cur_s, a, line, size):
-        m, hist, cx = a
+        m, hist, cx, ty = a
         w = line.split()
         f = dict(x.split("=", 1) for x in w[4:])
-        if (w[0] == "Y") != (hist == "after_failed_write") or w[1] != m or w[2] != cx or int(w[3]) != size:
+        if w[0] != HLETTER[hist] or w[1] != stmt_name(m, ty) or w[2] != cx or int(w[3]) != size:
             raise Broken("dbg_probe answered %r to %r" % (line, (a, size)))
         if w[0] == "Y" and f.get("ferr") != "1":
             raise Broken("the failed write on stderr could not be provoked (DEBUG=%d %s)" % (d, line))
         obs = (f["out"], int(f["eval"]), f["ctl"], f["else"] == "1")
-        cell = (d, cur_r, cur_s, m, hist, cx)
+        cell = (d, cur_r, cur_s, m, hist, cx, ty)
         st["executed"] += 1
         if size == 0:
             distinct.add(cell)
@@ -174,14 +174,15 @@ def run(ctx):
             ok, why = False, " (process ended with status %s, not through the fatal-error path)" % f["status"]
         if not ok:
             exp = sorted(allowed[cell])
-            tags = ("" if hist == "clean" else "/after-failed-write") + ("" if cx == "alone" else "/" + cx) + ("" if size == 0 else "/long-message")
+            tags = ({"clean": "", "after_failed_write": "/after-failed-write", "in_atexit_of_fatal": "/in-atexit-of-fatal"}[hist]
+                    + ("" if cx == "alone" else "/" + cx) + ("" if size == 0 else "/long-message") + ("" if ty == "int" else "/cond:" + ty))
             key = "%s%s [%s] out=%s%s eval=%s ctl=%s else=%s" % (m, tags, cell_class(d, cur_r, cur_s, m), f["out"],
                                                                  "/no-text" if (f["out"] != "none" and f["text"] != "1") else
                                                                  ("/count" if (f["out"] != "none" and int(f["count"]) != want) else ""),
                                                                  f["eval"], re.sub(r"\d+", "N", f["ctl"]), f["else"])
-            ctx.report(key, "DEBUG=%d runtime level %d silent=%s statement %s (stream history %s, context %s, message argument of %d bytes): observed %s%s; "
-                            "allowed by the rule (out, eval, ctl, else arm executed): %s" % (d, cur_r, cur_s, m, hist, cx, size, line[:300], why, exp),
-                       {"debug": d, "level": cur_r, "silent": cur_s, "statement": m, "history": hist, "context": cx, "size": size,
+            ctx.report(key, "DEBUG=%d runtime level %d silent=%s statement %s (history %s, context %s, condition type %s, message argument of %d bytes): observed %s%s; "
+                            "allowed by the rule (out, eval, ctl, else arm executed): %s" % (d, cur_r, cur_s, m, hist, cx, ty, size, line[:300], why, exp),
+                       {"debug": d, "level": cur_r, "silent": cur_s, "statement": m, "history": hist, "context": cx, "type": ty, "size": size,
                         "observed": line[:400], "allowed": [list(x) for x in exp],
                         "script": "L %d\nS %d\n%s\n" % (cur_r, int(cur_s), cmd_text("X", a, size))})
 
@@ -208,7 +209,7 @@ def run(ctx):
             judge(d, cur_r, cur_s, a, line, 0)
         # size sweep (direction B family): every message-bearing statement, every size, in the configuration where everything that is
         # compiled in is live (runtime level 6, not silenced); the rule does not know the message length, so the outcome is the cell's
-        sweep = [("L", 6), ("S", 0)] + [("Z", ((m, "clean", "alone"), n)) for m in MSG_STATEMENTS for n in sizes]
+        sweep = [("L", 6), ("S", 0)] + [("Z", ((m, "clean", "alone", "int"), n)) for m in MSG_STATEMENTS for n in sizes]
         lines = run_probe(ctx, exe, d, sweep, "sizes")
         for (c, a), line in zip(sweep, lines):
             if c == "Z":
@@ -238,10 +239,17 @@ def run(ctx):
                        "message-bearing statement in the all-live configuration of every build. A cell is non-trivial when something "
                        "observable happens (output, an evaluation, a return, an exit, an else arm); distinct = distinct cells (+ distinct "
                        "(cell, size) pairs of the sweep)")
-    ctx.sample({"cell": "DEBUG=5 R=5 loud D_MEM after a failed write on the stream", "allowed": [list(x) for x in sorted(allowed[(5, 5, False, "D_MEM", "after_failed_write", "alone")])]})
-    ctx.sample({"cell": "DEBUG=4 R=2 loud DPRINTF3 as the then-arm of if (0) ... else", "allowed": [list(x) for x in sorted(allowed[(4, 2, False, "DPRINTF3", "clean", "then_false")])]})
+    ctx.sample({"cell": "DEBUG=5 R=5 loud D_MEM after a failed write on the stream", "allowed": [list(x) for x in sorted(allowed[(5, 5, False, "D_MEM", "after_failed_write", "alone", "int")])]})
+    ctx.sample({"cell": "DEBUG=4 R=2 loud DPRINTF3 as the then-arm of if (0) ... else", "allowed": [list(x) for x in sorted(allowed[(4, 2, False, "DPRINTF3", "clean", "then_false", "int")])]})
     ctx.assumptions += ["probe and library compiled with clang from the current tree with a shim config.h per DEBUG value",
                         "stream output is classified by its marker (FATAL: / Warning: / Error: / other = debug)"]
+
+
+HLETTER = {"clean": "X", "after_failed_write": "Y", "in_atexit_of_fatal": "A"}
+
+
+def stmt_name(m, ty):
+    return m if ty == "int" else "%s_%s" % (m, ty)
 
 
 def cmd_text(c, a, size=0):
@@ -249,7 +257,7 @@ def cmd_text(c, a, size=0):
         a, size = a
         c = "X"
     if c == "X":
-        return "%s %s %s %d" % ("X" if a[1] == "clean" else "Y", a[0], a[2], size)
+        return "%s %s %s %d" % (HLETTER[a[1]], stmt_name(a[0], a[3]), a[2], size)
     return "%s %d" % (c, int(a))
 
 
